@@ -1,5 +1,5 @@
 """C07 — task functions get exactly the declared values; returns land in declared nodes."""
-from impl import args_api, tree_api
+from impl import args_api, args_obj, tree_api
 
 ASSUMPTIONS = [
     "optree (flatten/unflatten/is_prefix/flatten_up_to with none_is_leaf=True) is trusted; cross-checked against the model on every case",
@@ -14,11 +14,16 @@ def run(ctx):
                 "(annotation, return) pairs of height ≤1 and derived fitting / non-fitting returns; (b) generated task modules mixing every "
                 "declaration form (incl. task generators, one kwargs dict / container object shared by several declarations), built through "
                 "pytask.build, bodies log the canonical kwargs and return values of chosen shape; (c) 2-3 builds inside one process with "
-                "pickled inputs rewritten in between (by the harness or by a task through a Path product); "
+                "pickled inputs rewritten in between (by the harness or by a task through a Path product); (d) node / task objects: PythonNode "
+                "objects shared by producer and consumers (initial value or not, collection order, 1-2 in-process builds over the same "
+                "functions), TaskWithoutPath objects and functions with DirectoryNode dependencies over 2-3 in-process builds with "
+                "changing file sets; "
                 "non-trivial = the tree has a container and ≥2 leaves (a: the tree / both trees of a pair have a container); "
                 "distinct by canonical input")
     tree_api.campaign(ctx)
+    handle = args_obj.start(ctx)        # stream (d) runs in the background while stream (b)/(c) builds
     args_api.campaign(ctx)
+    args_obj.finish(ctx, handle)
     ctx.extra["corpus_witnesses"] = [s["name"] for s in args_api.corpus()]   # F70, F71, F72 (fixed): must pass
 
 
@@ -28,6 +33,9 @@ def replay(ctx, obj):
         case = inp["case"]
         obs = tree_api.run_worker([case], nproc=1)
         tree_api.check_cases(ctx, [case], obs)
+    elif inp.get("layer") == "obj":
+        res = args_obj.run_cases([inp["case"]], nproc=1)
+        args_obj.check_cases(ctx, [inp["case"]], res)
     elif inp.get("layer") == "seq":
         res = args_api.run_sequences([inp["seq"]], nproc=1)
         args_api.check_sequences(ctx, [inp["seq"]], res)
